@@ -138,7 +138,9 @@ def _validate_shard(trace_module, recs, workdir, k, timeout, cfg):
     r = tlc(os.path.join(SPEC, 'trace', trace_module), cfg, os.path.join(workdir, f'v{k}'),
             env={'TRACE_FILE': tf, 'OUT_FILE': of}, workers=1, timeout=timeout, heap='3g')
     if not tlc_ok(r) or not os.path.exists(of):
-        raise MachineryError(f'trace validation failed (shard {k} of {trace_module}):\n{r["out"][-5000:]}')
+        o = r['out']
+        k0 = o.find('Error:')
+        raise MachineryError(f'trace validation failed (shard {k} of {trace_module}):\n{o[k0:k0 + 1500] if k0 >= 0 else o[-1500:]}\n...\n{o[-1200:]}')
     with open(of) as f:
         v = json.loads(f.readline())
     if v['n'] != len(recs):
